@@ -14,6 +14,11 @@ PM_NAMES = ['pm', '<pm>', '${br}$$', 'p"m\'&', 'pé€']
 PS_NAMES = [('ps', '<single>${br}'), ('ps2', 'plain_view'), ('p<s>', '$$"\'&<v>')]     # (view name, function __name__)
 FB_NAMES = [('fb', '<secret>${br}'), ('fb2', 'secret_view'), ('f"b', "it's<&>${detail}")]
 KINDS = ['static-missing', 'static-oob', 'static-slash', 'pm-multi', 'pm-single', 'forbidden']
+# second world (build_app3): add_notfound_view(append_slash=True) over routes with a trailing slash; a view that hands
+# back the response of a subrequest run through the tweens; a view protected by require_csrf (origin check on https);
+# a NewResponse subscriber and a response callback that re-label the response when the request asks for it
+KINDS3 = ['slash-redirect', 'slash-miss', 'sub-notfound', 'csrf-origin']
+RELABELS = [None, 'text/html', 'application/json', 'text/plain', 'image/svg+xml']
 
 _state = {}
 
@@ -69,7 +74,79 @@ def build_app():
     return cfg.make_wsgi_app()
 
 
+def _relabel_subscriber(event):
+    ct = event.request.environ.get('HTTP_X_C19_RELABEL')
+    if ct:
+        event.response.content_type = ct
+
+
+def _sub_view(request):
+    from pyramid.request import Request
+    sub = Request.blank('/')
+    # the subrequest carries the tail of the outer path, no Accept header, and goes through the tweens
+    sub.environ['PATH_INFO'] = '/nf' + request.environ['PATH_INFO'][len('/sub'):]
+    sub.environ['SCRIPT_NAME'] = ''
+    return request.invoke_subrequest(sub, use_tweens=True)
+
+
+def _callback_view_factory():
+    from pyramid.response import Response
+
+    def v(request):
+        return Response('reached')
+    return v
+
+
+def _new_request(event):
+    # a response callback registered for every request: same re-labelling, one step earlier than NewResponse
+    req = event.request
+
+    def cb(request, response):
+        ct = request.environ.get('HTTP_X_C19_RELABEL_CB')
+        if ct:
+            response.content_type = ct
+    req.add_response_callback(cb)
+
+
+def build_app3():
+    from pyramid.config import Configurator
+    from pyramid.events import NewRequest, NewResponse
+    cfg = Configurator()
+    cfg.add_route('slash', '/slash/{x}/')
+    cfg.add_route('fixed', '/fixed/')
+    cfg.add_route('sub', '/sub/*rest')
+    cfg.add_route('csrf', '/csrf')
+    cfg.add_view(_callback_view_factory(), route_name='slash')
+    cfg.add_view(_callback_view_factory(), route_name='fixed')
+    cfg.add_view(_sub_view, route_name='sub')
+    cfg.add_view(_callback_view_factory(), route_name='csrf', require_csrf=True)
+    cfg.add_notfound_view(append_slash=True)
+    cfg.add_subscriber(_relabel_subscriber, NewResponse)
+    cfg.add_subscriber(_new_request, NewRequest)
+    cfg.commit()
+    return cfg.make_wsgi_app()
+
+
+def is_app3(case):
+    return case['kind'] in KINDS3
+
+
 def environ_of(case):
+    if case['kind'] in KINDS3:
+        env = [['REQUEST_METHOD', 'POST' if case['kind'] == 'csrf-origin' else 'GET'], ['SERVER_NAME', 'localhost'],
+               ['SERVER_PORT', '443' if case['kind'] == 'csrf-origin' else '80'],
+               ['wsgi.url_scheme', 'https' if case['kind'] == 'csrf-origin' else 'http'],
+               ['SCRIPT_NAME', case['script'].encode('utf-8').decode('latin-1')],
+               ['PATH_INFO', case['path'].encode('utf-8').decode('latin-1')],
+               ['SERVER_PROTOCOL', 'HTTP/1.1'], ['QUERY_STRING', case['query']]]
+        if case['kind'] == 'csrf-origin':
+            env.append(['HTTP_ORIGIN', case['origin']])
+            env.append(['CONTENT_LENGTH', '0'])
+        if case['accept'] is not None:
+            env.append(['HTTP_ACCEPT', case['accept']])
+        if case.get('relabel'):
+            env.append(['HTTP_X_C19_RELABEL' if not case.get('relabel_cb') else 'HTTP_X_C19_RELABEL_CB', case['relabel']])
+        return env
     env = [['REQUEST_METHOD', 'GET'], ['SERVER_NAME', 'localhost'], ['SERVER_PORT', '80'], ['wsgi.url_scheme', 'http'],
            ['SCRIPT_NAME', case['script'].encode('utf-8').decode('latin-1')], ['PATH_INFO', case['path'].encode('utf-8').decode('latin-1')],
            ['SERVER_PROTOCOL', 'HTTP/1.1'], ['QUERY_STRING', case['query']]]
@@ -79,10 +156,26 @@ def environ_of(case):
 
 
 def expected(case, formats):
-    """-> (class name, detail or None, location) the exception is raised with."""
+    """-> (class name, detail or None, location[, explanation override]) the exception is raised with."""
     from webob import Request
     req = Request(dict(map(tuple, environ_of(case))))
     k = case['kind']
+    if k == 'slash-redirect':
+        qs = req.query_string
+        if qs:
+            qs = '?' + qs
+        return formats['append_slash_class'], None, req.path + '/' + qs
+    if k == 'slash-miss':
+        return 'HTTPNotFound', req.path_info, ''
+    if k == 'sub-notfound':
+        env = dict(map(tuple, environ_of(case)))
+        sub = Request({'PATH_INFO': '/nf' + env['PATH_INFO'][len('/sub'):], 'SCRIPT_NAME': '', 'REQUEST_METHOD': 'GET',
+                       'SERVER_NAME': 'localhost', 'SERVER_PORT': '80', 'wsgi.url_scheme': 'http'})
+        return 'HTTPNotFound', sub.path_info, ''
+    if k == 'csrf-origin':
+        origin = case['origin'].split(' ')[-1]
+        return ('HTTPBadRequest', formats['csrf_origin_prefix'] + origin + formats['csrf_origin_suffix'], '',
+                formats['csrf_origin_explanation'])
     if k == 'static-missing':
         return 'HTTPNotFound', req.url, ''
     if k == 'static-oob':
@@ -104,7 +197,40 @@ def expected(case, formats):
     raise ValueError(k)
 
 
+def gen_case3(rng, gen_text, gen_accept):
+    k = rng.choice(KINDS3)
+    query, script, origin = '', '', ''
+    if rng.random() < (0.75 if k == 'slash-redirect' else 0.3):
+        query = gen_text(rng, 4, surrogates=False).replace('\n', '').replace('\r', '')
+        query = ''.join(c if ord(c) < 128 else '%E2%82%AC' for c in query)
+    if rng.random() < 0.15 and k != 'sub-notfound':
+        script = '/' + ''.join(c for c in gen_text(rng, 2, surrogates=False) if c not in '\n\r#?')
+    seg = (gen_text(rng, 3, surrogates=False) or 'x').replace('/', '|')
+    if k == 'slash-redirect':
+        path = rng.choice(['/slash/' + seg, '/slash/' + seg, '/fixed'])
+    elif k == 'slash-miss':
+        path = rng.choice(['/zz' + seg, '/slash/' + seg + '/deeper'])
+    elif k == 'sub-notfound':
+        path = '/sub/' + seg
+    else:
+        path = '/csrf'
+        t = ''.join(c for c in gen_text(rng, 3, surrogates=False) if 32 < ord(c) < 127 and c not in '[]')
+        origin = rng.choice(['https://evil', 'https://', 'https://localhost.evil']) + t
+        if rng.random() < 0.2:
+            origin = 'https://first.example ' + origin
+    case = {'via': 'app', 'kind': k, 'path': path, 'query': query, 'script': script, 'accept': gen_accept(rng)}
+    if k == 'csrf-origin':
+        case['origin'] = origin
+    if rng.random() < 0.4:
+        case['relabel'] = rng.choice(RELABELS[1:])
+        if rng.random() < 0.4:
+            case['relabel_cb'] = True
+    return case
+
+
 def gen_case(rng, gen_text, gen_accept):
+    if rng.random() < 0.4:
+        return gen_case3(rng, gen_text, gen_accept)
     k = rng.choice(KINDS)
     query, script = '', ''
     if rng.random() < 0.4:
@@ -134,6 +260,8 @@ def gen_case(rng, gen_text, gen_accept):
 
 def valid(case):
     try:
+        if case.get('kind') in KINDS3:
+            return valid3(case)
         if set(case) != {'via', 'kind', 'path', 'query', 'script', 'accept'} or case['kind'] not in KINDS:
             return False
         p, q, s = case['path'], case['query'], case['script']
@@ -163,3 +291,45 @@ def valid(case):
         return p[:1] == '/' and p[1:] in dict(FB_NAMES)
     except Exception:
         return False
+
+
+def valid3(case):
+    k = case['kind']
+    want = {'via', 'kind', 'path', 'query', 'script', 'accept'} | ({'origin'} if k == 'csrf-origin' else set())
+    if set(case) - {'relabel', 'relabel_cb'} != want:
+        return False
+    p, q, s = case['path'], case['query'], case['script']
+    if not all(isinstance(x, str) for x in (p, q, s)) or not (case['accept'] is None or isinstance(case['accept'], str)):
+        return False
+    if case.get('relabel') not in RELABELS or case.get('relabel_cb') not in (None, True):
+        return False
+    if case.get('relabel_cb') and not case.get('relabel'):
+        return False
+    p.encode('utf-8')
+    s.encode('utf-8')
+    if any(c in q + s for c in '\n\r') or any(ord(c) > 127 for c in q) or (s and not s.startswith('/')) \
+            or '#' in s or '?' in s:
+        return False
+    if k == 'slash-redirect':
+        if p == '/fixed':
+            return True
+        seg = p[len('/slash/'):]
+        return p.startswith('/slash/') and seg != '' and '/' not in seg
+    if k == 'slash-miss':
+        if p.startswith('/zz'):
+            return '/' not in p[1:] and p != '/zz'
+        seg = p[len('/slash/'):]
+        return p.startswith('/slash/') and seg.endswith('/deeper') and seg.count('/') == 1 and not seg.startswith('/')
+    if k == 'sub-notfound':
+        return p.startswith('/sub/') and s == '' and len(p) > 5 and '/' not in p[5:]
+    o = case['origin']
+    last = o.split(' ')[-1] if isinstance(o, str) else ''
+    if not (p == '/csrf' and isinstance(o, str) and o.isascii() and all(32 <= ord(c) < 127 and c not in '[]' for c in o)):
+        return False
+    from urllib.parse import urlparse
+    try:
+        up = urlparse(last)
+    except ValueError:
+        return False
+    # the generated class: a parsable https origin that is not the site's own (the detail then echoes the origin)
+    return up.scheme == 'https' and up.netloc.lower() != 'localhost' and last != 'null'
